@@ -3,7 +3,7 @@
    frame builders, hashes, length table and constants are generated from /repo. *)
 From J1939 Require Import Base CodecGlue Model21 Model22.
 From J1939.gen Require Import Codec Tp21Gen CaGen Tp22Gen.
-From J1939P Require Import CodecProofs Flat TimeoutProofs MpgProofs PoolProofs Tp22Proofs ConserveProofs.
+From J1939P Require Import CodecProofs Flat Tp21Seg Tp21Resp TimeoutProofs MpgProofs PoolProofs Tp22Proofs Tp22Resp ConserveProofs.
 
 (* T02.1: segmentation into 60-byte segments loses nothing, for EVERY payload *)
 Theorem C02_segments_reassemble : forall d,
@@ -86,3 +86,43 @@ Theorem C02_sessions_never_shared_any_history : forall maxp civ biv evs,
   Forall hev_ok evs -> Inv (fold_left hstep evs (init_node22 maxp civ biv)).
 Proof. exact capacity_conserved_any_history. Qed.
 Print Assumptions C02_sessions_never_shared_any_history.
+
+(* T02.2 (responder, RTS): an RTS for a free key opens the session and is answered by CTS(min(own max, RTS limit, segments), 1) *)
+Theorem C02_responder_rts_opens : forall prio sa dest data now m,
+  rts_frame_ok data ->
+  let h := tp22_hash (tp22_cm_session_num data) sa dest in
+  tget (f_rcv m) h = None ->
+  let g := Z.min (n_maxp (base m)) (Z.min (byte_at data 7) (tp22_cm_segment_num data)) in
+  let b := {| q_pgn := tp22_cm_pgn data; q_session := tp22_cm_session_num data; q_size := tp22_cm_message_size data;
+              q_nseg := tp22_cm_segment_num data; q_next := 1; q_border := Some g; q_maxrec := Some g; q_data := [];
+              q_deadline := now + tp22_T2; q_src := sa; q_dst := dest |} in
+  flat22 (process_tp_cm22 prio sa dest data now m) =
+    (wake22 (set_frcv m (tset (f_rcv m) h b)), [OTx (tp22_cts dest sa (tp22_cm_session_num data) g 1 (tp22_cm_pgn data))], RDone 0).
+Proof. exact responder22_rts_opens. Qed.
+Print Assumptions C02_responder_rts_opens.
+
+(* T02.3 (responder, complete reception): the in-sequence data frames of a message of the announced size — ANY
+   chunking into non-empty chunks, ANY padding after the last byte, ANY arrival instants — followed by the matching
+   end-of-message status deliver EXACTLY the payload, once per matching subscriber and nothing else, acknowledge a
+   connection-mode transfer and release the session *)
+Theorem C02_responder_delivers_exactly : forall prio sa dest s p pad chunks eom now m b,
+  0 <= s < 16 -> Z.of_nat (length chunks) < 16777215 ->
+  Forall (fun c => fst c <> []) chunks -> concat (map fst chunks) = p ++ pad ->
+  tget (f_rcv m) (tp22_hash s sa dest) = Some b -> q_next b = 1 -> q_data b = [] -> q_size b = len p ->
+  eom_frame_ok eom -> tp22_cm_session_num eom = s -> tp22_cm_message_size eom = len p -> tp22_cm_segment_num eom = q_nseg b ->
+  let '(m1, o1) := feed_dt22 prio sa dest (dt_frames s 1 chunks) m in
+  no_delivery o1 /\
+  fouts22 (process_tp_cm22 prio sa dest eom now m1) =
+    deliveries (base m1) prio (q_pgn b) sa dest p ++
+    (if dest =? addr_GLOBAL then [] else [OTx (tp22_eom_ack dest sa s (len p) (q_nseg b) (q_pgn b))]) /\
+  f_rcv (fnode22 (process_tp_cm22 prio sa dest eom now m1)) = tdel (f_rcv m1) (tp22_hash s sa dest).
+Proof. exact responder22_delivers_exactly. Qed.
+Print Assumptions C02_responder_delivers_exactly.
+
+(* the frames the originator builds have exactly that form: header ++ segment ++ 0xFF padding *)
+Theorem C02_originator_frame_shape : forall src dst s k seg fr seg',
+  dt_frame src dst s k seg = Some (fr, seg') -> (length seg <= 60)%nat ->
+  exists pad, f_data fr = tp22_dt_header s k 0 ++ (seg ++ pad) /\ Forall (fun x => x = tp22_dt_pad) pad /\
+              f_id fr = tp22_dt_id src dst.
+Proof. exact dt_frame_shape. Qed.
+Print Assumptions C02_originator_frame_shape.
